@@ -104,7 +104,7 @@ chk("C17",
     "DESIGN.md §4 C17")
 
 chk("C18",
-    "Coq theorems over a model of the selections of node clean, node verify, node/group sync (and cancel forms) and file clean, for every index and option combination: the --size walk takes exactly the not-yet-scheduled copies of the shortest record-order prefix whose running size reaches the budget; repeating any of the commands selects nothing further (clean: when the update does not feed back into --target, proved for no target and for target groups other than the cleaned node's own); a repeated sync never creates a second pending request for the same file, source and destination. The documented --days filter is refuted for the implementation in Coq and on the real command (known finding KF-C18a, not repaired because an upstream test pins the slip). Tie: hand-written model; every command is run through click with --force on random indexes and the resulting tables are compared with the model in Coq; each is also run in --check mode (no change, same count announced), run twice (idempotence), and compared with a Python reading of the help texts (monitor); the literal filters are checked textually (T1).",
+    "Coq theorems over a model of the selections of node clean, node verify, node/group sync (and cancel forms) and file clean, for every index and option combination: the --size walk takes exactly the not-yet-scheduled copies of the shortest record-order prefix whose running size reaches the budget; repeating any of the commands selects nothing further (for clean unconditionally since the repair F-C18d: the --target test leaves out the node being cleaned, so the update never feeds back into the selection); a repeated sync never creates a second pending request for the same file, source and destination. The documented --days filter is refuted for the implementation in Coq and on the real command (known finding KF-C18a, not repaired because an upstream test pins the slip). Tie: hand-written model; every command is run through click with --force on random indexes and the resulting tables are compared with the model in Coq; each is also run in --check mode (no change, same count announced), run twice (idempotence), and compared with a Python reading of the help texts (monitor); the literal filters are checked textually (T1).",
     "Coq kernel+VM; hand-written selection model validated by correspondence; help-text reading of the monitor; registration times in whole seconds",
     "Coq proof (list induction, idempotence of filter/update pairs, counting) + vm_compute table correspondence + documented-selection monitor",
     "DESIGN.md §4 C18")
